@@ -398,4 +398,24 @@ def installedInteraction {β : Type} (perm : List Nat) (u : List (List β)) : Op
   | none => none
   | some rows => mapOpt (permuteRow perm) rows
 
+
+/-! ### The initial state: a user-supplied state is rewritten into site order -/
+
+/-- `inv_permutation(perm)`: `inv[perm[i]] = i`. -/
+def invPerm (perm : List Nat) : List Nat := (List.range perm.length).map (fun a => perm.idxOf a)
+
+/-- Which index list `init_initial_state` hands to `permute_string`: `direct` = `qubit_permutation` (the tree as it
+is), `inverse` = `inv_permutation(qubit_permutation)` (a plausible slip: identical on every self-inverse order). -/
+inductive StateMap where
+  | direct
+  | inverse
+  deriving DecidableEq, Repr
+
+/-- `permute_string(bstr, …)`: the basis string of a user-supplied initial state (one symbol per atom, register
+order) rewritten into site order. -/
+def installedString {β : Type} (m : StateMap) (perm : List Nat) (b : List β) : Option (List β) :=
+  match m with
+  | .direct => permuteRow perm b
+  | .inverse => permuteRow (invPerm perm) b
+
 end EmuVerif.Stepper
